@@ -82,31 +82,24 @@ fn verify_match_rule(
                     })
                     .collect();
 
-            let dst_prefix = {
-                match in_dst {
-                    None => String::new(),
-                    Some(dst_dir) => {
-                        let mut res = PathBuf::new();
-                        res.push(dst_dir);
-                        let mut res = res.to_string_lossy().to_string();
+            // A prefix is a directory: it ends with exactly one '/',
+            // and an empty prefix means "no prefix".
+            let dir_prefix = |dir: &Option<String>| match dir {
+                None => String::new(),
+                Some(dir) => {
+                    let mut res = PathBuf::new();
+                    res.push(dir);
+                    let mut res = res.to_string_lossy().to_string();
+                    if !res.is_empty() && !res.ends_with('/') {
                         res.push('/');
-                        res
                     }
+                    res
                 }
             };
 
-            let src_prefix = {
-                match in_src {
-                    None => String::new(),
-                    Some(src_dir) => {
-                        let mut res = PathBuf::new();
-                        res.push(src_dir);
-                        let mut res = res.to_string_lossy().to_string();
-                        res.push('/');
-                        res
-                    }
-                }
-            };
+            let dst_prefix = dir_prefix(in_dst);
+
+            let src_prefix = dir_prefix(in_src);
 
             for src_path in src_artifact_queue {
                 // artifacts outside of the source prefix are not matched
